@@ -331,7 +331,7 @@ def run_jsonnet(expr, profile='debug', extra=None, timeout=60):
     """Run expr on the real binary. Returns dict(kind= value|error|crash|timeout, text=...)."""
     b = jrsonnet_bin(profile)
     try:
-        p = subprocess.run([b] + (extra or []) + ['-e', expr], capture_output=True, text=True, timeout=timeout,
+        p = subprocess.run([b] + (extra or []) + ['-e', '--', expr], capture_output=True, text=True, timeout=timeout,
                            errors='replace', env=dict(ENV, RUST_BACKTRACE='0'))
     except subprocess.TimeoutExpired:
         return {'kind': 'timeout', 'text': ''}
@@ -460,7 +460,9 @@ def run_property(prop, tier, spec, py_jobs=None):
         kf = {(k['property'], k['key']): k for k in known.get('findings', [])}
         failing = []
         for r in results:
-            if r['state'] in ('infra', 'undecided', 'vacuous'):
+            if r['state'] == 'undecided' and r.get('meta', {}).get('optional'):
+                log(f"[{prop}] optional harness {r['harness']} not decided ({r.get('why')}); recorded in evidence only")
+            elif r['state'] in ('infra', 'undecided', 'vacuous'):
                 infra.append(f"{r['harness']}: {r['state']}: {r.get('why', '')}")
             elif r['state'] == 'fail':
                 failing.append(r)
@@ -482,6 +484,9 @@ def run_property(prop, tier, spec, py_jobs=None):
                 by_desc.setdefault(p['check_desc'].strip('"'), p)
             for c in r['failed']:
                 key = f"{r['harness']}:{check_key(c)}"
+                if re.match(r'^(harnesses|model|reference)::', c.get('func', '')) and not re.match(r'^[A-Z]\d\d[.:]', c['desc']):
+                    infra.append(f"{key}: a built-in check failed inside the harness/reference code itself ({c['loc']}): harness bug, not a verdict")
+                    continue
                 p = by_desc.get(c['desc'])
                 if p is None:
                     # Kani emits one test per failed check; fall back to any test of this harness
@@ -574,11 +579,11 @@ def run_property(prop, tier, spec, py_jobs=None):
     for key, rpath in violations:
         print(f'VIOLATION property={prop} replay={rpath}')
         print(f'  finding: {key}')
+    for i in infra:
+        log(f'[{prop}] NOT DECIDED / INFRASTRUCTURE: {i}')
     if violations:
         return 1
     if infra:
-        for i in infra:
-            log(f'[{prop}] NOT DECIDED / INFRASTRUCTURE: {i}')
         return 2
     print(f'[{prop}] held on everything explored: {len(results)} solver jobs, {nontrivial} with all covers reached, '
           f'{len(known_hit)} known finding(s), {wall:.0f}s')
